@@ -10,6 +10,7 @@ import (
 	"fmt"
 	"os"
 	"strings"
+	"sync/atomic"
 	"testing"
 	"time"
 
@@ -36,23 +37,43 @@ func zzSeqs(alpha []string, maxLen int, f func(string)) int {
 	return n
 }
 
+var (
+	zzWhat    atomic.Value // what is running (for the watchdog)
+	zzStarted atomic.Int64
+)
+
+// zzGuard runs f; a panic is a counterexample. A watchdog goroutine (started by the test) reports a call
+// that does not return within 10 s.
 func zzGuard(t *testing.T, what, src string, f func()) {
-	done := make(chan interface{}, 1)
-	go func() {
-		defer func() { done <- recover() }()
-		f()
-	}()
-	select {
-	case r := <-done:
-		if r != nil {
+	zzWhat.Store(what + " on " + fmt.Sprintf("%q", src))
+	zzStarted.Store(time.Now().UnixNano())
+	defer func() {
+		zzStarted.Store(0)
+		if r := recover(); r != nil {
 			t.Fatalf("COUNTEREXAMPLE %s panics on %q: %v", what, src, r)
 		}
-	case <-time.After(10 * time.Second):
-		t.Fatalf("COUNTEREXAMPLE %s does not return within 10s on %q", what, src)
+	}()
+	f()
+}
+
+func zzWatchdog(done chan struct{}) {
+	for {
+		select {
+		case <-done:
+			return
+		case <-time.After(time.Second):
+			if s := zzStarted.Load(); s != 0 && time.Now().UnixNano()-s > int64(10*time.Second) {
+				fmt.Printf("    COUNTEREXAMPLE %v does not return within 10s\n", zzWhat.Load())
+				os.Exit(1)
+			}
+		}
 	}
 }
 
 func TestVerifBounded(t *testing.T) {
+	done := make(chan struct{})
+	defer close(done)
+	go zzWatchdog(done)
 	nWa, nWat, nAsm, nCheck := 4, 4, 3, 2
 	if os.Getenv("VERIF_TIER") == "thorough" {
 		nWa, nWat, nAsm, nCheck = 5, 5, 4, 3
@@ -98,5 +119,71 @@ func TestVerifBounded(t *testing.T) {
 			zzGuard(t, "native ParseFile", src, func() { nparser.ParseFile(cpu, ntoken.NewFileSet(), "a.s", []byte(src)) })
 		})
 	}
-	fmt.Printf("BOUNDED {\"cases\": %d, \"bound\": \"token sequences of length <= %d (.wa: 19 tokens; .wz: 13 tokens, length <= %d), <= %d (WAT, 19 tokens), <= %d (native assembly, 14 tokens, 2 CPUs); plus wider alphabets (.wa 53 tokens, WAT 45 tokens) one token shorter; type checking (LoadProgramFile) for sequences of <= %d tokens; no panic, each call returns within 10 s\"}\n", cases, nWa, nWa-1, nWat, nAsm, nCheck)
+	// number literals: every literal made of a radix prefix and up to 3 (thorough 4) further characters,
+	// scanned at the start of the text and behind other tokens
+	digits := []string{"0", "1", "7", "8", "9", "a", "f", "_", ".", "e", "p", "+", "x", "b", "o"}
+	nLit := 3
+	if os.Getenv("VERIF_TIER") == "thorough" {
+		nLit = 4
+	}
+	for _, pre := range []string{"0", "0x", "0b", "0o", "1", "9", "."} {
+		cases += zzSeqs(digits, nLit, func(tail string) {
+			lit := pre + strings.ReplaceAll(tail, " ", "")
+			for _, src := range []string{lit, "x = " + lit, "func main { x := " + lit + " + 1 }"} {
+				zzGuard(t, "FormatCode(.wa)", src, func() { FormatCode("a.wa", src) })
+				zzGuard(t, "GetCodeSyntax", src, func() { GetCodeSyntax("a", []byte(src)) })
+			}
+		})
+	}
+	// index and slice expressions: every bracket content of up to 6 (thorough 7) of the tokens : 1 a
+	nIdx := 6
+	if os.Getenv("VERIF_TIER") == "thorough" {
+		nIdx = 7
+	}
+	cases += zzSeqs([]string{":", "1", "a"}, nIdx, func(inner string) {
+		src := "func main { x := s[" + inner + "] }"
+		zzGuard(t, "FormatCode(.wa)", src, func() { FormatCode("a.wa", src) })
+	})
+	// constant expressions through the type checker: every A op B over boundary literals, all in one
+	// package per operator (a panic is then narrowed down to the single declaration)
+	lits := []string{"0", "1", "-1", "0.0", "1.0", "-1.5", "1e308", "1e-400", "'a'", "\"s\"", "true", "nil", "(1<<62)", "(1<<63)", "(1<<64)", "0.1", "1i", "x"}
+	ops := []string{"+", "-", "*", "/", "%", "<<", ">>", "&", "|", "^", "&^", "==", "<", "&&"}
+	typs := []string{"", ": i32", ": u8", ": f32", ": f64", ": string", ": bool"}
+	for _, op := range ops {
+		var decls []string
+		for _, a := range lits {
+			for _, b := range lits {
+				for _, ty := range typs {
+					if ty != "" && !(a == "1.0" || b == "0.0" || a == "(1<<62)") {
+						continue // typed declarations for a few operands only
+					}
+					decls = append(decls, fmt.Sprintf("const c%d%s = %s %s %s", len(decls), ty, a, op, b))
+				}
+			}
+		}
+		cases += len(decls)
+		load := func(ds []string) (p interface{}) {
+			src := "const x = 7\n" + strings.Join(ds, "\n") + "\nfunc main {}\n"
+			done := make(chan interface{}, 1)
+			go func() {
+				defer func() { done <- recover() }()
+				LoadProgramFile(DefaultConfig(), "a.wa", src)
+			}()
+			select {
+			case r := <-done:
+				return r
+			case <-time.After(60 * time.Second):
+				return "no return within 60s"
+			}
+		}
+		if r := load(decls); r != nil {
+			for _, d := range decls {
+				if r1 := load([]string{d}); r1 != nil {
+					t.Fatalf("COUNTEREXAMPLE LoadProgramFile(.wa) panics on %q: %v", d, r1)
+				}
+			}
+			t.Fatalf("COUNTEREXAMPLE LoadProgramFile(.wa) panics on the constant declarations with operator %s: %v", op, r)
+		}
+	}
+	fmt.Printf("BOUNDED {\"cases\": %d, \"bound\": \"token sequences of length <= %d (.wa: 19 tokens; .wz: 13 tokens, length <= %d), <= %d (WAT, 19 tokens), <= %d (native assembly, 14 tokens, 2 CPUs); plus wider alphabets (.wa 53 tokens, WAT 45 tokens) one token shorter; type checking (LoadProgramFile) for sequences of <= %d tokens; number literals of a radix prefix plus <= %d characters in 3 contexts; index/slice brackets of <= %d tokens; constant declarations A op B over 18 boundary literals x 14 operators (7 declared types for some) through the type checker; no panic, each call returns within 10 s\"}\n", cases, nWa, nWa-1, nWat, nAsm, nCheck, nLit, nIdx)
 }
